@@ -25,12 +25,13 @@ const (
 )
 
 type fakeBlock struct {
+	bad  bool // body does not hash to the header's merkle root
 	hdr  wire.BlockHeader
 	size int
 }
 
 func (b *fakeBlock) GetHeader() wire.BlockHeader      { return b.hdr }
-func (b *fakeBlock) IsMerkleRootValid() bool          { return true }
+func (b *fakeBlock) IsMerkleRootValid() bool          { return !b.bad }
 func (b *fakeBlock) GetTxCount() uint64               { return 0 }
 func (b *fakeBlock) GetNextTx() (*wire.MsgTx, error)  { return nil, nil }
 func (b *fakeBlock) ResetTxs()                        {}
@@ -229,7 +230,7 @@ func (w *c13World) enabled() []string {
 			return
 		}
 		seen[n] = true
-		ops = append(ops, "del:"+n+":s", "del:"+n+":B")
+		ops = append(ops, "del:"+n+":s", "del:"+n+":B", "del:"+n+":bad")
 	}
 	if n := len(r.requested); n > 0 {
 		addDel(r.requested[0].name)
@@ -336,12 +337,15 @@ func (w *c13World) apply(op string) (viol []core.Violation) {
 			size = c13Big
 		}
 		h := c13T.hash[p[1]]
-		ok := w.st.AddBlock(&h, &fakeBlock{hdr: c13T.hdr[p[1]], size: size})
+		ok := w.st.AddBlock(&h, &fakeBlock{hdr: c13T.hdr[p[1]], size: size, bad: p[2] == "bad"})
 		got := "ignored"
 		if ok {
 			got = "accepted"
 		}
-		want := w.ref.deliver(p[1], size)
+		want := "ignored" // a body that does not hash to the merkle root changes nothing
+		if p[2] != "bad" {
+			want = w.ref.deliver(p[1], size)
+		}
 		if got != want {
 			fail("deliver-result", fmt.Sprintf("deliver got %s want %s", got, want),
 				fmt.Sprintf("AddBlock(%s) = %s, reference says %s", p[1], got, want))
